@@ -18,6 +18,7 @@ inductive PyErr where
   | attributeError
   | valueError
   | typeError
+  | keyError
   deriving Repr, DecidableEq, BEq
 
 namespace Str
